@@ -4,6 +4,7 @@ Model: `Model/Assign.lean` (the in-place write loops, aborting at the first fail
 element), spec: `Spec/Assign.lean` (`update1`, `update2`: all writes or none).
 -/
 import MechVerif.Lemmas.Assign
+import MechVerif.Gen.AssignKernels
 namespace MechVerif.Assign
 open MechVerif.Num MechVerif.Mat MechVerif.Index
 
@@ -226,3 +227,149 @@ example : (pairs [1, 3] [2, 1]).Nodup ∧ inRange [1, 3] 3 ∧ inRange [2, 1] 2 
 
 
 end MechVerif.Assign
+
+/-! ### the assignment kernels as they are written in the source
+
+`Gen/AssignKernels.lean` is regenerated from src/interpreter/src/stdlib/assign/matrix.rs and
+machines/math/src/op_assign/{add,sub,mul,div}_assign.rs on every run (`tools/extract_assign.py`); its own theorem
+`C04_assign_kernels_as_written_ok` is a `decide` proof over the extracted table: every kernel is accepted for what
+it is meant to do, or is listed in `AssignIR.knownDeviations` with exactly the extracted shape.  The theorems here
+carry the accepted kernels over to `assign1` / `assign2`, the functions the theorems above are about. -/
+namespace MechVerif.AssignIR
+open MechVerif.Num MechVerif.Mat MechVerif.Index MechVerif.AccessIR MechVerif.Assign
+
+variable {α : Type}
+
+/-- every kernel macro of the signature table (53: 29 of assign/matrix.rs, 6 of each op_assign file) is extracted -/
+theorem C04_every_assign_kernel_extracted :
+    expected.all (fun e => Gen.AssignKernels.kernels.any (fun k => k.1 == e.1)) = true := by decide
+
+/-- every listed deviation is a kernel of the signature table, and on the witness recorded with it the kernel as
+    written and the model give different results: the list holds no kernel that merely was not understood -/
+theorem C04_listed_deviations_deviate : deviationsDeviate = true := by decide
+
+theorem written_ok (name : String) (ir : KIR) (sig : Sig) (h : (name, ir) ∈ Gen.AssignKernels.kernels)
+    (hs : expected.lookup name = some sig) (hd : deviationOf name = none) : kOk sig ir = true := by
+  have hall := Gen.AssignKernels.C04_assign_kernels_as_written_ok
+  unfold tableOk at hall
+  rw [Bool.and_eq_true, List.all_eq_true, List.all_eq_true] at hall
+  have := hall.2 (name, ir) h
+  simp only [hs, hd] at this
+  exact this
+
+/-- **Accepted, or a listed deviation with exactly this shape.**  A new deviation (a kernel that is neither) and a
+    repaired one (a listed kernel whose shape changed) both contradict the generated table theorem. -/
+theorem C04_written_kernel_accepted_or_listed (name : String) (ir : KIR)
+    (h : (name, ir) ∈ Gen.AssignKernels.kernels) :
+    ∃ sig, expected.lookup name = some sig ∧
+      ((deviationOf name = none ∧ kOk sig ir = true) ∨
+       (∃ d, deviationOf name = some d ∧ d.shape = ir ∧ kOk sig ir = false)) := by
+  have hall := Gen.AssignKernels.C04_assign_kernels_as_written_ok
+  unfold tableOk at hall
+  rw [Bool.and_eq_true, List.all_eq_true, List.all_eq_true] at hall
+  have := hall.2 (name, ir) h
+  cases hs : expected.lookup name with
+  | none => simp [hs] at this
+  | some sig =>
+    refine ⟨sig, rfl, ?_⟩
+    cases hd : deviationOf name with
+    | none => simp only [hs, hd] at this; exact Or.inl ⟨rfl, this⟩
+    | some d =>
+      simp only [hs, hd, Bool.and_eq_true, decide_eq_true_eq, Bool.not_eq_true'] at this
+      exact Or.inr ⟨d, rfl, this.1, this.2⟩
+
+/-- **The one-index kernels as written write the addressed elements.**  Every extracted kernel that writes
+    `sink[k]` and is not a listed deviation performs — for every matrix, every index argument, every source, every
+    size and every arithmetic of the element kind — exactly the writes of `assign1` for the selector its argument
+    holds, with the operator of its signature: the targets are the linear indices `selIxs` gives, in that order,
+    each written once per occurrence; the j-th of them receives `f old (srcAt src j)`; an index of 0 or past the
+    last element aborts the kernel at that step with the earlier writes in place (finding C04-D4), exactly as in
+    the model.  `C04_assign_frame`, `C04_assign_writes_addressed`, `C04_assign_then_read` above are stated for
+    `assign1`. -/
+theorem C04_written_one_index_kernels_write_addressed (arith : OpTok → α → α → Except Err α) (name : String)
+    (ir : KIR) (sig : Sig) (h : (name, ir) ∈ Gen.AssignKernels.kernels) (hsig : expected.lookup name = some sig)
+    (hd : deviationOf name = none) (hrow : ir.row = none) (m : Mat α) (args : List Arg) (src : Operand α)
+    (hfit : srcFits ir.src src = true) (s : Sel) (hs : tSelOf args ir.col = some s) :
+    run arith ir m args src = assign1 (fOf arith sig.op) m s src :=
+  run_linear arith sig ir (written_ok name ir sig h hsig hd) hrow m args src hfit s hs
+
+/-- **The two-index kernels as written write the addressed cells, column by column.**  Every extracted kernel that
+    writes `sink[(r, c)]`, is not a listed deviation, visits the cells in the model's order (`kExact`: the column
+    loop outside, or a single loop) and takes no view of the sink ahead of its loop performs exactly the writes of
+    `assign2` for the two selectors its arguments hold: the cells are `pairs R C`, the j-th of them receives
+    `f old (srcAt src j)`, a failing step aborts with the earlier writes in place. -/
+theorem C04_written_two_index_kernels_write_addressed (arith : OpTok → α → α → Except Err α) (name : String)
+    (ir : KIR) (sig : Sig) (h : (name, ir) ∈ Gen.AssignKernels.kernels) (hsig : expected.lookup name = some sig)
+    (hd : deviationOf name = none) (hex : kExact ir = true) (rowAx : TAxis) (hrow : ir.row = some rowAx)
+    (m : Mat α) (args : List Arg) (src : Operand α) (hfit : srcFits ir.src src = true)
+    (s1 s2 : Sel) (hs1 : tSelOf args rowAx = some s1) (hs2 : tSelOf args ir.col = some s2) :
+    run arith ir m args src = assign2 (fOf arith sig.op) m s1 s2 src :=
+  run_two arith sig ir (written_ok name ir sig h hsig hd) hex rowAx hrow m args src hfit s1 s2 hs1 hs2
+
+/-- **The two-index kernels as written give the model's result, in any loop order.**  Every extracted kernel that
+    writes `sink[(r, c)]` and is not a listed deviation — also `assign_2d_range_range`, whose row loop is the outer
+    one, and `assign_2d_range_scalar{,_v}`, which take the column view ahead of the loop — runs to its end exactly
+    when `assign2` does for the two selectors its arguments hold, and then leaves the same matrix.  What a failing
+    run leaves behind is compared by `C04_written_two_index_kernels_write_addressed` for the kernels in the model's
+    order only: the others fail at another cell (or before the first one). -/
+theorem C04_written_two_index_kernels_same_result (arith : OpTok → α → α → Except Err α) (name : String)
+    (ir : KIR) (sig : Sig) (h : (name, ir) ∈ Gen.AssignKernels.kernels) (hsig : expected.lookup name = some sig)
+    (hd : deviationOf name = none) (rowAx : TAxis) (hrow : ir.row = some rowAx)
+    (m : Mat α) (args : List Arg) (src : Operand α) (hfit : srcFits ir.src src = true)
+    (s1 s2 : Sel) (hs1 : tSelOf args rowAx = some s1) (hs2 : tSelOf args ir.col = some s2)
+    (hne : ir.hoist = true → ∀ R C, selIxs s1 m.rows = .ok R → selIxs s2 m.cols = .ok C → R ≠ [] ∧ C ≠ []) :
+    ((run arith ir m args src).2 = .ok () ↔ (assign2 (fOf arith sig.op) m s1 s2 src).2 = .ok ()) ∧
+    ((run arith ir m args src).2 = .ok () → (run arith ir m args src).1 = (assign2 (fOf arith sig.op) m s1 s2 src).1) :=
+  run_two_same arith sig ir (written_ok name ir sig h hsig hd) rowAx hrow m args src hfit s1 s2 hs1 hs2 hne
+
+/-- of the accepted kernels exactly these three are not in the model's order (`kExact`) -/
+theorem C04_kernels_not_in_model_order :
+    (Gen.AssignKernels.kernels.filter (fun k => (deviationOf k.1).isNone && !kExact k.2)).map (·.1) =
+      ["assign_2d_range_scalar", "assign_2d_range_scalar_v", "assign_2d_range_range"] := by decide
+
+/-- the accepted kernels (25) and the listed deviations (28) -/
+theorem C04_accepted_and_listed_counts :
+    (Gen.AssignKernels.kernels.filter (fun k => (deviationOf k.1).isNone)).length = 25 ∧
+    knownDeviations.length = 28 := by decide
+
+/-- a corollary through `assign1`: an accepted one-index kernel, as written, leaves every element that is not
+    addressed as it was — whether it runs to its end or fails half-way -/
+theorem C04_written_one_index_kernels_frame (arith : OpTok → α → α → Except Err α) (name : String)
+    (ir : KIR) (sig : Sig) (h : (name, ir) ∈ Gen.AssignKernels.kernels) (hsig : expected.lookup name = some sig)
+    (hd : deviationOf name = none) (hrow : ir.row = none) (m : Mat α) (args : List Arg) (src : Operand α)
+    (hfit : srcFits ir.src src = true) (s : Sel) (hs : tSelOf args ir.col = some s)
+    (ix : List Nat) (hix : selIxs s (m.rows * m.cols) = .ok ix) (q : Nat) (hq : ∀ i ∈ ix, i - 1 ≠ q) :
+    (run arith ir m args src).1.rows = m.rows ∧ (run arith ir m args src).1.cols = m.cols ∧
+    (run arith ir m args src).1.data[q]? = m.data[q]? := by
+  rw [C04_written_one_index_kernels_write_addressed arith name ir sig h hsig hd hrow m args src hfit s hs]
+  have := C04_assign_frame (fOf arith sig.op) m s src ix hix q hq
+  exact ⟨this.1, this.2.1, this.2.2.2⟩
+
+/-- D1 through the tables: the `[1,1]` arm of `op_assign!` compiles `MatrixAssignScalar` (listed in
+    `knownArmDeviations`), the struct of `x[i] = v`, whose kernel `assign_1d_scalar` is written with `=`: under
+    `x[1] += 5` it stores 5 where the statement denotes 6. -/
+theorem C04_counterexample_D1 :
+    (⟨["Formula"], "1,1", "MatrixAssignScalar", false⟩ : OpArm) ∈ Gen.AssignKernels.opArms ∧
+    ("assign_1d_scalar", (⟨none, .std (.scalar 0 true), true, false, .whole, .set⟩ : KIR)) ∈ Gen.AssignKernels.kernels ∧
+    run natArith ⟨none, .std (.scalar 0 true), true, false, .whole, .set⟩ (⟨1, 3, [1, 2, 3]⟩ : Mat Nat) [.scalar 1] (.scalar 5)
+      = (⟨1, 3, [5, 2, 3]⟩, .ok ()) ∧
+    assign1 (natArith .add) (⟨1, 3, [1, 2, 3]⟩ : Mat Nat) (.scalar 1) (.scalar 5) = (⟨1, 3, [6, 2, 3]⟩, .ok ()) := by decide
+
+/-! non-vacuity: `x[[3 1]] += [10 20]` through the extracted `add_assign_1d_range_vec`, `x[[2 1], :] = 9` through
+    `assign_2d_range_all`, a failing run that has written (C04-D4); kernels with the loops of a listed deviation, with
+    `-=` under `+=`, without the `- 1`, with `source[0]`, are refused -/
+example : ("add_assign_1d_range_vec", (⟨none, .std (.vec 0 true (.argLen 0)), true, false, .at .colVar, .add⟩ : KIR))
+    ∈ Gen.AssignKernels.kernels := by decide
+example : run natArith ⟨none, .std (.vec 0 true (.argLen 0)), true, false, .at .colVar, .add⟩
+    (⟨1, 3, [1, 2, 3]⟩ : Mat Nat) [.ixs [3, 1]] (.mat ⟨1, 2, [10, 20]⟩) = (⟨1, 3, [21, 2, 13]⟩, .ok ()) := by decide
+example : run natArith ⟨some (.std (.vec 0 true (.argLen 0))), .std (.all (.dim .cols)), true, false, .whole, .set⟩
+    (⟨3, 2, [1, 2, 3, 4, 5, 6]⟩ : Mat Nat) [.ixs [2, 1]] (.scalar 9) = (⟨3, 2, [9, 9, 3, 9, 9, 6]⟩, .ok ()) := by decide
+example : run natArith ⟨none, .std (.vec 0 true (.argLen 0)), true, false, .whole, .set⟩
+    (⟨1, 3, [1, 2, 3]⟩ : Mat Nat) [.ixs [1, 5]] (.scalar 7) = (⟨1, 3, [7, 2, 3]⟩, .error .index) := by decide
+example : kOk ⟨none, .vec, true, .add⟩ ⟨none, .std (.vec 0 true (.argLen 0)), true, false, .at .colVar, .sub⟩ = false := by decide
+example : kOk ⟨none, .vec, true, .add⟩ ⟨none, .std (.vec 0 false (.argLen 0)), true, false, .at .colVar, .add⟩ = false := by decide
+example : kOk ⟨none, .vec, true, .add⟩ ⟨none, .std (.vec 0 true (.argLen 0)), true, false, .at (.lit 0), .add⟩ = false := by decide
+example : kOk ⟨some .all, .scalar, false, .set⟩
+    ⟨some (.std (.all (.dim .cols))), .std (.scalar 0 true), true, false, .whole, .set⟩ = false := by decide
+
+end MechVerif.AssignIR
